@@ -255,10 +255,14 @@ def main(argv=None):
     # replays: each distinct (claim signature) once; the model must reproduce on the real code
     violations, known_hits, nonrepro = [], [], []
     seen_sig = set()
+    tries = {}
     for shape, c in sat_claims:
         sig = (check.finding_signature(shape, c["name"]),)
-        if sig in seen_sig and len(seen_sig) > 0 and sum(1 for v in violations if v["sig"] == sig) >= 1:
-            continue
+        if sig in seen_sig:
+            continue  # already reproduced once for this claim
+        tries[sig] = tries.get(sig, 0) + 1
+        if tries[sig] > 4:
+            continue  # at most 4 models are replayed per claim
         n = len([f for f in os.listdir(os.path.join(VERIF, "replays")) if f.startswith(pid + "_")])
         path = os.path.join(VERIF, "replays", f"{pid}_{tier}_{len(seen_sig)}.json")
         json.dump({"property": pid, "shape": shape, "inputs": c["model"], "claim": c["name"], "how": f"./run {pid} --replay {path}"}, open(path, "w"), indent=1)
